@@ -108,6 +108,41 @@ def check_histories(ck, sm_log):
                 ck.violation("update_exception", SITE, inp, expected="state can be queried after the history", got=repr(ex))
             if len(ck.samples) < 3:
                 ck.sample({"wf": name, "history": ops[:5]})
+    # directed histories (own random stream, so the random histories above are unchanged): the first and last electron of each spin are updated
+    # with cached values, all walkers then a subset — a state that the random histories reach only for some seeds (added after the seeded change
+    # F24, which needs a spin-down electron updated with cached values, slipped through seed 0)
+    drng = np.random.default_rng(1000003 * (ck.seed + 1) + 17)
+    for name, mol, wf in zoo:
+        if wf is None:
+            continue
+        nconf = 3
+        cfg = wfzoo.walkers(mol, nconf, drng, spread=1.2)
+        cfg = wc.move_off_nodes(wf, cfg, drng)
+        nelec = cfg.configs.shape[1]
+        nup = int(mol.nelec[0]) if hasattr(mol, "nelec") else nelec // 2
+        targets = sorted(set([0, max(nup - 1, 0), min(nup, nelec - 1), nelec - 1]))
+        ops = []
+        inp = {"wf": name, "nconf": nconf, "history": ops, "directed": True}
+
+        def run_directed():
+            wf.recompute(cfg)
+            for rnd, (mk, cache) in enumerate([("all", "gradient_value"), ("some", "testvalue")]):
+                for e in targets:
+                    pos = cfg.configs[:, e] + drng.normal(size=(nconf, 3)) * 0.4
+                    accept = np.ones(nconf, dtype=bool) if mk == "all" else np.array([True, False, True])[:nconf]
+                    new = cfg.make_irreducible(e, pos)
+                    saved = wf.gradient_value(e, new)[2] if cache == "gradient_value" else wf.testvalue(e, new)[1]
+                    ops.append({"e": e, "mask": mk, "cache": cache})
+                    cfg.move(e, new, accept)
+                    wf.updateinternals(e, new, cfg, mask=accept, saved_values=saved)
+        ok, _ = ck.guarded(run_directed, "update", SITE, inp)
+        ck.case(("hist_directed", name), nontrivial=True)
+        if not ok:
+            continue
+        try:
+            compare_with_recompute(ck, name, wf, cfg, inp)
+        except Exception as ex:  # noqa
+            ck.violation("update_exception", SITE, inp, expected="state can be queried after the history", got=repr(ex))
     ck.stats["update_modes_exercised"] = {"%s/%s" % k: v for k, v in modes.items()}
 
 
